@@ -84,6 +84,7 @@ struct ChunkSpec {
   int def_level_encoding = pq::RLE;  // BIT_PACKED for the negative test
   int codec_tag_override = -1;       // write this codec id in the metadata (negative tests: LZO/BROTLI/unknown)
   int extra_header_fields = 0;       // unknown thrift fields injected into page headers (0..3 = injection level)
+  int codec_flavour = 0;             // ZSTD: 1 = frame without the content-size field, as streaming writers (parquet-mr, zstd-jni streams) produce
 };
 struct PageInfo { int rg = 0, col = 0, page = 0; bool is_dict = false; size_t header_off = 0, header_len = 0, body_off = 0, body_len = 0; size_t first_entry = 0, num_entries = 0; size_t first_row = 0; };
 struct FileSpec {
@@ -99,7 +100,7 @@ struct FileSpec {
 struct Written { Bytes bytes; std::vector<PageInfo> pages; pq::FileMetaData meta; size_t footer_off = 0, footer_len = 0; };
 
 // ------------------------------------------------------------- compression
-inline bool compress(int codec, const Bytes &in, Bytes &out) {
+inline bool compress(int codec, const Bytes &in, Bytes &out, int flavour = 0) {
   switch (codec) {
     case pq::UNCOMPRESSED: out = in; return true;
     case pq::SNAPPY: { std::string s; snappy::Compress((const char *)in.data(), in.size(), &s); out.assign(s.begin(), s.end()); return true; }
@@ -110,7 +111,14 @@ inline bool compress(int codec, const Bytes &in, Bytes &out) {
       z.next_in = (Bytef *)in.data(); z.avail_in = (uInt)in.size(); z.next_out = out.data(); z.avail_out = (uInt)out.size();
       int r = deflate(&z, Z_FINISH); out.resize(z.total_out); deflateEnd(&z); return r == Z_STREAM_END;
     }
-    case pq::ZSTD: { out.resize(ZSTD_compressBound(in.size())); size_t r = ZSTD_compress(out.data(), out.size(), in.data(), in.size(), 3); if (ZSTD_isError(r)) return false; out.resize(r); return true; }
+    case pq::ZSTD: if (flavour == 1) {
+      ZSTD_CCtx *cx = ZSTD_createCCtx(); if (!cx) return false;
+      ZSTD_CCtx_setParameter(cx, ZSTD_c_contentSizeFlag, 0); ZSTD_CCtx_setParameter(cx, ZSTD_c_compressionLevel, 3);
+      out.resize(ZSTD_compressBound(in.size()) + 64);
+      size_t r = ZSTD_compress2(cx, out.data(), out.size(), in.data(), in.size()); ZSTD_freeCCtx(cx);
+      if (ZSTD_isError(r)) return false; out.resize(r);
+      return true; }
+    { out.resize(ZSTD_compressBound(in.size())); size_t r = ZSTD_compress(out.data(), out.size(), in.data(), in.size(), 3); if (ZSTD_isError(r)) return false; out.resize(r); return true; }
     case pq::LZ4_RAW: { out.resize((size_t)LZ4_compressBound((int)in.size()) + 1); int r = LZ4_compress_default((const char *)in.data(), (char *)out.data(), (int)in.size(), (int)out.size()); if (r <= 0 && !in.empty()) return false; out.resize((size_t)std::max(r, 0)); if (in.empty()) out = Bytes{0}; return true; }
     default: out = in; return true;   // unknown codec id (negative tests): store as is
   }
@@ -223,7 +231,7 @@ inline Written write_file(const FileSpec &fs) {
         for (auto &v : cs.values) if (!dict_idx.count(v)) { dict_idx[v] = (uint32_t)dict.size(); dict.push_back(v); }
         for (int i = 0; i < cs.dict_extra_entries; i++) { Bytes e = dict.empty() ? Bytes(fixed_width(lf.type, lf.type_length) ? fixed_width(lf.type, lf.type_length) : 3, 0x41) : dict[i % dict.size()]; if (!e.empty()) e[0] ^= (uint8_t)(0x80 + i); else e.push_back((uint8_t)i); dict.push_back(e); }
         Bytes body = plain_values(lf.type, dict, 0, dict.size()), comp;
-        compress(cs.codec, body, comp);
+        compress(cs.codec, body, comp, cs.codec_flavour);
         pq::PageHeader ph; ph.type = pq::DICTIONARY_PAGE; ph.uncompressed_size = (int32_t)body.size(); ph.compressed_size = (int32_t)comp.size();
         if (cs.crc) ph.crc = (int32_t)crc32_zlib(comp);
         pq::DictPageHeader dh; dh.num_values = (int32_t)dict.size(); dh.encoding = cs.dict_page_encoding; ph.dict = dh;
@@ -280,13 +288,13 @@ inline Written write_file(const FileSpec &fs) {
           if (lf.max_rep) { le32(body, (uint32_t)repb.size()); body.insert(body.end(), repb.begin(), repb.end()); }
           if (lf.max_def) { if (cs.def_level_encoding == pq::RLE) le32(body, (uint32_t)defb.size()); body.insert(body.end(), defb.begin(), defb.end()); }
           body.insert(body.end(), vals.begin(), vals.end());
-          compress(cs.codec, body, comp);
+          compress(cs.codec, body, comp, cs.codec_flavour);
           ph.type = pq::DATA_PAGE;
           pq::DataPageHeader dh; dh.num_values = (int32_t)(e1 - e0); dh.encoding = pg.encoding; dh.def_enc = cs.def_level_encoding; dh.rep_enc = pq::RLE;
           if (cs.page_stats) dh.statistics = make_stats(lf.type, cs.values, vpos, vpos + nn, (int64_t)nulls, cs.stats_mode);
           ph.data = dh;
         } else {   // v2: levels uncompressed and unprefixed in front, values compressed
-          Bytes cv; compress(cs.codec, vals, cv);
+          Bytes cv; compress(cs.codec, vals, cv, cs.codec_flavour);
           body = repb; body.insert(body.end(), defb.begin(), defb.end()); body.insert(body.end(), vals.begin(), vals.end());
           comp = repb; comp.insert(comp.end(), defb.begin(), defb.end()); comp.insert(comp.end(), cv.begin(), cv.end());
           ph.type = pq::DATA_PAGE_V2;
